@@ -26,6 +26,10 @@ def _resolve_name(prog, module, name, depth=0):
     head, _, rest = name.partition('.')
     if not rest and head in module.assigns:
         return module.assigns[head], module
+    if rest and head in module.defs and isinstance(module.defs[head], ast.ClassDef):
+        ci = prog.classes.get(f'{module.name}.{head}')
+        if ci is not None and rest in ci.assigns:
+            return ci.assigns[rest], module
     if head in module.imports:
         target = module.imports[head]
         if rest:
